@@ -1054,8 +1054,12 @@ func (ps *parser) parsePrimary() (*Expr, error) {
 					return nil, fmt.Errorf("bound variable expected at %d", n.pos)
 				}
 				pd := ParamDecl{Name: n.text, Type: "Int"}
-				if ps.peek().kind == "id" {
-					pd.Type = ps.next().text
+				if ps.peek().kind == "id" || ps.isOp("*") || ps.isOp("[") {
+					ty, err := ps.parseTypeText()
+					if err != nil {
+						return nil, err
+					}
+					pd.Type = ty
 				}
 				bound = append(bound, pd)
 				if ps.isOp(",") {
